@@ -27,6 +27,7 @@ CHECKS = {
     "C14": ("vf.checks_comp", "c14"),
     "C15": ("vf.checks_comp", "c15"),
     "C16": ("vf.checks_comp", "c16"),
+    "C17": ("vf.checks_comp", "c17"),
     "C18": ("vf.checks_wire", "c18"),
     "C19": ("vf.checks_wire", "c19"),
     "C20": ("vf.checks_comp", "c20"),
